@@ -58,6 +58,14 @@ type sched struct {
 	seq      int
 	log      []string
 	flags    map[string]int
+	left     []string // keys of blocked commands that completed since the last drain (see drainWakes)
+	draining bool
+	// strictHandOn (C11): wake-ups handed on by a completed command are accounted at once and must go to the longest
+	// waiters of non-empty lists; otherwise (C12, whose scenarios deliver pushes and unblock signals outside this
+	// accounting) a wake-up beyond the owed ones is accepted whenever it goes to a client that is blocked
+	strictHandOn bool
+	// deferLeave: the caller of await drains itself right after (it first has to apply the completed command to the model)
+	deferLeave bool
 }
 
 func (s *sched) logf(f string, a ...any) {
@@ -169,6 +177,16 @@ func (s *sched) await(b *blocker) (point string, rep *schedReply, err error) {
 	case r := <-b.replyCh:
 		s.unregister(b)
 		b.state, b.token = "idle", false
+		s.left = append(s.left, b.keys...)
+		if s.strictHandOn && !s.draining && !s.deferLeave {
+			// account for the wake-ups the completed command handed on, while the model still is in the state they were sent in
+			s.draining = true
+			derr := s.drainWakes(fmt.Sprintf("completion of c%d %v", b.idx, b.argv), nil, nil)
+			s.draining = false
+			if derr != nil {
+				return "", &r, derr
+			}
+		}
 		s.logf("  c%d completed: %s %v", b.idx, r.v, r.err)
 		return "", &r, nil
 	case <-time.After(schedLiveness):
@@ -224,6 +242,13 @@ func (s *sched) drainWakes(what string, pushedKeys []string, pushedN []int) erro
 	wakes := s.wakes
 	s.wakes = nil
 	s.mu.Unlock()
+	left := s.left
+	s.left = nil
+	// who was waiting for the keys of completed commands before this step's wake-ups are accounted
+	expectedBefore := map[string][]*blocker{}
+	for _, k := range left {
+		expectedBefore[k] = s.expectedWakes(k, 1<<30)
+	}
 	var expect []*blocker
 	for i, k := range pushedKeys {
 		for _, b := range s.expectedWakes(k, pushedN[i]) {
@@ -261,13 +286,46 @@ func (s *sched) drainWakes(what string, pushedKeys []string, pushedN []int) erro
 		}
 		return "[" + strings.Join(p, " ") + "]"
 	}
-	if len(got) != len(expect) {
+	if len(got) < len(expect) {
 		return fmt.Errorf("%s: woke %s, but the longest-blocked waiters that must be served are %s", what, names(got), names(expect))
 	}
-	for i := range got {
+	for i := range expect {
 		if got[i] != expect[i] {
 			return fmt.Errorf("%s: woke %s, but the longest-blocked waiters that must be served are %s (order matters)", what, names(got), names(expect))
 		}
+	}
+	// wake-ups beyond the ones the pushes owe: a blocked command that completed may hand on a wake-up it
+	// received for an element it did not take. Such wake-ups are not owed, but they are only right for the
+	// longest waiters of lists that are not empty, in that order.
+	if extra := got[len(expect):]; len(extra) > 0 {
+		var allowed []*blocker
+		for _, k := range left {
+			n := 0
+			if o := s.srv.DBs[0].Keys[k]; o != nil && o.T == model.TList {
+				n = len(o.List)
+			}
+			for _, b := range expectedBefore[k] {
+				if n == 0 {
+					break
+				}
+				dup := false
+				for _, e := range append(allowed, expect...) {
+					dup = dup || e == b
+				}
+				if !dup {
+					allowed = append(allowed, b)
+					n--
+				}
+			}
+		}
+		ok := len(extra) <= len(allowed)
+		for i := 0; ok && i < len(extra); i++ {
+			ok = extra[i] == allowed[i]
+		}
+		if !ok && s.strictHandOn {
+			return fmt.Errorf("%s: woke %s; %s are owed by the pushes, and beyond them only %s (waiters of non-empty lists that a completed command had been waiting on, longest first) may be woken", what, names(got), names(expect), names(allowed))
+		}
+		s.st.Class("wake-up-handed-on-by-a-completed-command")
 	}
 	if len(got) >= 2 {
 		s.flags["multiwake"]++
@@ -339,7 +397,9 @@ func (s *sched) resume(b *blocker) error {
 		}
 		return nil
 	}
+	s.deferLeave = opRuns // the wake-ups of this step are drained below, together with the pushes of the command itself
 	p, rep, err := s.await(b)
+	s.deferLeave = false
 	if err != nil {
 		return err
 	}
@@ -384,7 +444,9 @@ func (s *sched) start(b *blocker, argv []string) error {
 		b.replyCh <- schedReply{v, err}
 	}()
 	s.logf("start c%d %v", b.idx, argv)
+	s.deferLeave = served
 	p, rep, err := s.await(b)
+	s.deferLeave = false
 	if err != nil {
 		return err
 	}
